@@ -13,7 +13,7 @@ ASSUMPTIONS = [
     "a run not quiescent after the step budget (150) is reported as a violation (non-termination)",
 ]
 BOUNDS = {
-    "quick": "k in {1,2,3}: MGM pair, pair+isolated; DSA pair, pair+isolated; MGM2 pair (k<=2, all schedules); chain-3 with k<=2 for MGM (all schedules) and DSA (costs restricted to {0,1}, canonical schedule); min mode (max on pairs)",
+    "quick": "k in {1,2,3}: MGM pair, pair+isolated; DSA pair, pair+isolated; MGM2 pair (k<=2, all schedules); chain-3 with k<=2 for MGM (all schedules) and DSA (costs restricted to {0,1}, canonical schedule); min mode (max on pairs); chain-3 with zero tables, k in {2,3}, all FIFO interleavings for DSA and MGM",
     "thorough": "quick + DSA chain-3 with unrestricted costs (k=1 all schedules, k=2 canonical), chain-3 k=3 (canonical), triangle (k<=2), ternary constraint, MGM2 chain-3 (k<=2, canonical schedule) and MGM2 pair k=3",
 }
 OUTSIDE = "more than 3 computations, domain above 2, stop_cycle above 3, DSA variants B/C on chains"
@@ -34,6 +34,14 @@ def jobs(tier):
     if tier == "thorough":
         add("dsa", "chain3", [1])
         add("dsa", "chain3", [2], fixed=True, upfront=True)
+    # scheduling-focused jobs: tables pinned to 0 (nobody ever wants to move, so no random draw), every start order and
+    # FIFO interleaving explored with more cycles
+    zero3 = {"c0_%d%d" % (i, j): 0 for i in range(2) for j in range(2)}
+    zero3.update({"c1_%d%d" % (i, j): 0 for i in range(2) for j in range(2)})
+    out.append({"name": "dsa-chain3-k23-zero-allsched", "algo": "dsa", "spec": spec("chain3", "min", pins=zero3), "ks": [2, 3],
+                "upfront": True})
+    out.append({"name": "mgm-chain3-k3-zero-allsched", "algo": "mgm", "spec": spec("chain3", "min", pins=zero3), "ks": [3],
+                "upfront": True})
     add("mgm2", "pair", [1, 2])
     add("mgm2", "pair", [1, 2], "max")
     if tier == "thorough":
